@@ -401,7 +401,10 @@ Definition check_step (m : mstate) (st : step) : N * mstate :=
       let m' := if rolled then {| m_db := a'; m_roots := m_roots m; m_states := m_states m;
                                   m_tip := if last <=? m_tip m then last else m_tip m; m_floor := m_floor m |} else m in
       (code (res_eqb mr r && db_matches a' d)
-            (if res_eqb r ROk' then
+            ((* restart recovery must succeed whenever the engine's tip lies between the finalised floor and the
+                application height and the engine's root is the right one *)
+             (if (m_floor m <=? last) && (last <=? m_tip m) && negb wrong then res_eqb r ROk' else true) &&
+             if res_eqb r ROk' then
                rootref && treeref &&
                match nget (m_states m) last with
                | Some s => store_eqb s (fst d) | None => Nat.eqb (length (fst d)) 0 end &&
